@@ -120,3 +120,32 @@ package shaping
 //@   loop 1 invariant [first-start] implies(len(run.Glyphs) > 0 && startGIdx == 0, run.Glyphs[0].startLetterSpacing == old(run.Glyphs[0].startLetterSpacing) && run.Glyphs[0].XOffset == old(run.Glyphs[0].XOffset) && run.Glyphs[0].YOffset == old(run.Glyphs[0].YOffset))
 //@   loop 1 invariant [first-start-done] implies(len(run.Glyphs) > 0 && startGIdx > 0, run.Glyphs[0].startLetterSpacing == old(run.Glyphs[0].startLetterSpacing) + ite(isStartRun, fixed.Int26_6(0), additionalSpacing/2) && implies(isStartRun, run.Glyphs[0].XOffset == old(run.Glyphs[0].XOffset) && run.Glyphs[0].YOffset == old(run.Glyphs[0].YOffset)))
 //@   loop 1 decreases len(run.Glyphs) - startGIdx
+//
+// ---------------------------------------------------------------------------------------------
+// Property C08: visual order follows UAX #9 rule L2. Output carries only the parity of the embedding level
+// (its Direction's progression), so L2 is stated for the two levels the data can express: runs whose progression
+// equals the paragraph's stay at their base position; maximal sequences of opposite runs are reversed in place.
+// basePos: logical index for a left-to-right/top-to-bottom paragraph, mirrored for the converse.
+//@ spec oppRun(line Line, dir di.Direction, k int) bool = line[k].Direction.Progression() != dir.Progression()
+//@ spec basePos(dir di.Direction, n int, k int) int = ite(bool(dir.Progression()), n-1-k, k)
+//
+//@ func swapVisualOrder C08
+//@   mode int
+//@   ensures [reversed] forall(i, 0, len(subline), subline[i].VisualIndex == old(subline[len(subline)-1-i].VisualIndex))
+//@   modifies subline[:].VisualIndex
+//@   loop 1 invariant [L] L == len(subline)
+//@   loop 1 invariant [swapped] forall(i, 0, rangeindex+1, subline[i].VisualIndex == old(subline[L-1-i].VisualIndex) && subline[L-1-i].VisualIndex == old(subline[i].VisualIndex))
+//@   loop 1 invariant [middle] forall(i, rangeindex+1, L-1-rangeindex, subline[i].VisualIndex == old(subline[i].VisualIndex))
+//
+//@ func computeBidiOrdering C08
+//@   mode int
+//@   requires len(finalLine) < 1<<31
+//@   ensures [range] forall(k, 0, len(finalLine), 0 <= int(finalLine[k].VisualIndex) && int(finalLine[k].VisualIndex) < len(finalLine))
+//@   ensures [same-direction-fixed] forall(k, 0, len(finalLine), implies(!oppRun(finalLine, dir, k), int(finalLine[k].VisualIndex) == basePos(dir, len(finalLine), k)))
+//@   ensures [all-opposite-reversed] implies(forall(k, 0, len(finalLine), oppRun(finalLine, dir, k)), forall(k, 0, len(finalLine), int(finalLine[k].VisualIndex) == basePos(dir, len(finalLine), len(finalLine)-1-k)))
+//@   modifies finalLine[:].VisualIndex
+//@   loop 1 invariant [bidi-range] bidiStart == -1 || (0 <= bidiStart && bidiStart <= rangeindex)
+//@   loop 1 invariant [open-block] implies(bidiStart != -1, forall(k, bidiStart, rangeindex+1, oppRun(finalLine, dir, k) && int(finalLine[k].VisualIndex) == basePos(dir, len(finalLine), k)))
+//@   loop 1 invariant [same-direction-fixed] forall(k, 0, rangeindex+1, implies(!oppRun(finalLine, dir, k), int(finalLine[k].VisualIndex) == basePos(dir, len(finalLine), k)))
+//@   loop 1 invariant [range] forall(k, 0, rangeindex+1, 0 <= int(finalLine[k].VisualIndex) && int(finalLine[k].VisualIndex) < len(finalLine))
+//@   loop 1 invariant [all-opposite-so-far] implies(rangeindex >= 0 && forall(k, 0, rangeindex+1, oppRun(finalLine, dir, k)), bidiStart == 0)
